@@ -92,7 +92,7 @@ PROPS["C04"] = dict(
     level="fault_enumeration",
     technique="end-to-end close-event scenario grid (FIN/close/RST by either side, offsets, in-flight data) with an absolute oracle on socket events + history states, and a splice-vs-buffered differential of the logical observations",
     text="Seven close scenarios (client FIN first / origin FIN first / simultaneous / client RST / origin RST / client close with MBs in flight / FIN at offset 0) x listener x connector pairings are run against a splice and a buffered proxy chain; oracle: the peer sees EOF only after all bytes sent before it and within 3 s, the opposite direction still delivers and ends, both sides observe the end after an abort, /api/live no longer lists the tunnel and /api/history shows ClientShutdown/ServerShutdown in the order of the closes and one terminal state; the per-scenario observation vectors of the two I/O modes must be equal.",
-    note="trusted: kernel loopback; 'promptly' restated as 3 s with a 15 s watchdog; python TLS clients cannot half-close so FIN-first-by-client scenarios run on plain listeners only; later additions (back-pressure before a FIN, trickle beyond the idle period, abort with a silent peer, an upstream whose reply and first payload share a segment) are listed in DESIGN.md 3 C04",
+    note="trusted: kernel loopback; 'promptly' restated as 3 s with a 15 s watchdog; python TLS clients cannot half-close so FIN-first-by-client scenarios run on plain listeners only; later additions (back-pressure before a FIN, trickle beyond the idle period, abort with a silent peer, an upstream whose reply and first payload share a segment, tunnels aborted with every buffer full followed by fresh tunnels on the same proxies) are listed in DESIGN.md 3 C04",
     design_ref="DESIGN.md 3 C04",
     steps=[e2e("c04")],
     assumptions=COMMON_ASSUME,
@@ -153,7 +153,7 @@ PROPS["C13"] = dict(
     title="idle tunnels closed after the configured timeout, and only then",
     level="exploration",
     technique="end-to-end monitor: /api/live idle_timeout wiring per listener kind + wall-clock close-window oracle with small timeouts (never early, never later than T+1s+slack), trickle and T=0 patterns",
-    text="Four proxies (timeouts absent, 0/0, idle 2/udp 4, idle 4/udp 2) x listener kinds (http, socks, reverse tcp, reverse udp, socks5 udp-associate, CONNECT-over-QUIC) x patterns (silent, trickle slower than the period for 3T, burst then silence): the idle_timeout reported by /api/live must equal the configured value (the only claim about the 600 s default), a silent tunnel must be closed within [T-0.3, T+1+3] s of the last echoed byte, a trickling tunnel must stay open, T=0 must still be open after 8 s, and the history record must end with the 'idle timeout' error.",
+    text="Four proxies (timeouts absent, 0/0, idle 2/udp 4, idle 4/udp 2) x listener kinds (http, socks, reverse tcp, reverse udp, socks5 udp-associate, UDP over CONNECT with and without Udp-Bind-Source, CONNECT-over-QUIC) x patterns (silent, trickle slower than the period for 3T, burst then silence): the idle_timeout reported by /api/live must equal the configured value (the only claim about the 600 s default), a silent tunnel must be closed within [T-0.3, T+1+3] s of the last echoed byte, a trickling tunnel must stay open, T=0 must still be open after 8 s, and the history record must end with the 'idle timeout' error.",
     note="trusted: wall clock on a loaded machine (3 s slack; API unresponsive => inconclusive); no finite run shows 'never early' for 600 s",
     design_ref="DESIGN.md 3 C13",
     steps=[e2e("c13")],
@@ -175,7 +175,7 @@ PROPS["C16"] = dict(
     title="every connection accounted exactly once, truthfully",
     level="exploration",
     technique="offline history checker: harness ground truth per connection joined with /api/live samples, the final /api/history and every access-log line (forced rotations): exactly-once, lifecycle grammar, field truthfulness, byte-counter conservation, bounded newest-first history",
-    text="Mixed populations (successful tunnels over http/https/socks5/socks4/reverse with and without early data, denied, upstream refused, client abort before/during/after the handshake, garbage handshake, TLS handshake failure, UDP association) run at up to 150 concurrent connections against proxies with history_size 1000/3/0 and both I/O modes while the log is rotated at random instants. Keyed by the client's source port, every accepted connection must have exactly one access-log line with a distinct id, the listener/target/upstream it used, a state sequence matching the lifecycle grammar with exactly one terminal state (error text iff error), non-decreasing timestamps, byte counters equal to the payload moved (incl. early data); held tunnels must be listed live and none after they ended; the history must be exactly the newest min(history_size, ended) records, newest first; TLS-handshake failures must leave no record.",
+    text="Mixed populations (successful tunnels over http/https/socks5/socks4/reverse with and without early data, denied, upstream refused, client abort before/during/after the handshake, garbage handshake, TLS handshake failure, UDP association, UDP asked of an upstream that cannot carry it) run at up to 150 concurrent connections against proxies with history_size 1000/3/0 and both I/O modes while the log is rotated at random instants. Keyed by the client's source port, every accepted connection must have exactly one access-log line with a distinct id, the listener/target/upstream it used, a state sequence matching the lifecycle grammar with exactly one terminal state (error text iff error), non-decreasing timestamps, byte counters equal to the payload moved (incl. early data); held tunnels must be listed live and none after they ended; the history must be exactly the newest min(history_size, ended) records, newest first; TLS-handshake failures must leave no record.",
     note="trusted: the collector writes log lines in retirement order (used as the 'end order' for the history check); SOCKS UDP associations are retired by their idle timer, which the run keeps at 1 s",
     design_ref="DESIGN.md 3 C16",
     steps=[e2e("c16")],
@@ -186,7 +186,7 @@ PROPS["C14"] = dict(
     title="management API never blocks the data plane",
     level="fault_enumeration",
     technique="end-to-end stall-point grid with concurrent API pollers and fresh-connection probes; latency bound calibrated on an unstalled baseline of the same run; bounded-recovery phase",
-    text="After measuring API and fresh-tunnel latencies without stallers, the monitor places clients stopped after k bytes of a valid handshake (k across the whole handshake) for http, socks5, socks5+auth, socks4, the same inside TLS, half-done TLS handshakes, a QUIC handshake whose client packets stop after the first one (dropping UDP relay), tunnels whose reader stopped while the origin blasts data, plus dozens of idle connections. With the stallers in place, pollers on every API endpoint (status, live, history, rules GET/POST, metrics, logrotate), one fresh tunnel per listener kind every 50 ms, connection churn and the first QUIC connection of a new peer run concurrently; every call must complete within max(2 s, 20 x baseline p99). After the stallers go away everything must be back to normal.",
+    text="After measuring API and fresh-tunnel latencies without stallers, the monitor places clients stopped after k bytes of a valid handshake (k across the whole handshake) for http, socks5, socks5+auth, socks4, the same inside TLS, half-done TLS handshakes, a QUIC handshake whose client packets stop after the first one (dropping UDP relay), tunnels whose reader stopped while the origin blasts data, more clients than worker threads stalled inside over-long unterminated lines (4 K .. 200 K of a request line, header line, SOCKS4 user id or host name), plus dozens of idle connections. With the stallers in place, pollers on every API endpoint (status, live, history, rules GET/POST, metrics, logrotate), one fresh tunnel per listener kind every 50 ms, connection churn and the first QUIC connection of a new peer run concurrently; every call must complete within max(2 s, 20 x baseline p99). After the stallers go away everything must be back to normal.",
     note="trusted: wall-clock bound on a loaded machine (baseline p99 > 1 s => inconclusive); interleavings are sampled by the scheduler, reach comes from the stall-point grid",
     design_ref="DESIGN.md 3 C14",
     steps=[e2e("c14")],
@@ -208,7 +208,7 @@ PROPS["C19"] = dict(
     title="service resumes after an upstream outage",
     level="fault_enumeration",
     technique="end-to-end fault injection: kill/stop/restart supervisor + probe streams; bounded-recovery and clean-failure checker on one clock; continuous healthy side traffic",
-    text="For every upstream kind (origin via direct, upstream proxy via http, via socks5, via the shared QUIC connection, a load balancer over two) x fault (SIGKILL+restart, SIGTERM+restart, SIGSTOP..SIGCONT, SIGSTOP+SIGKILL+restart) x phase (idle, tunnel open across the outage, request caught during connect) x outage length, each with its own upstream process behind one proxy: once the harness has verified that the upstream accepts connections again, probes routed to it must succeed within 3 attempts (5 for QUIC) and 15 s (50 s for QUIC, whose dead-peer detection is its 30 s idle timeout); a tunnel that was open across a hard outage must end on the client side and be recorded as an error; a request caught by the outage must complete or fail; a probe stream on an unrelated upstream (10 Hz) must never fail or exceed 2 s.",
+    text="For every upstream kind (origin via direct, upstream proxy via http, via socks5, via the shared QUIC connection, a load balancer over two) x fault (SIGKILL+restart, SIGTERM+restart, SIGSTOP..SIGCONT, SIGSTOP+SIGKILL+restart) x phase (idle, tunnel open across the outage, request caught during connect) x outage length, each with its own upstream process behind one proxy: once the harness has verified that the upstream accepts connections again, probes routed to it must succeed within 3 attempts (5 for QUIC) and 15 s (50 s for QUIC, whose dead-peer detection is its 30 s idle timeout); a tunnel that was open across a hard outage must end on the client side and be recorded as an error; a request caught by the outage must complete or fail; a probe stream on an unrelated upstream (10 Hz) must never fail or exceed 2 s. A round-robin balancer whose two members go away and return in turn (dozens of failed member connects over its life) must serve again within 3 attempts after every return.",
     note="trusted: liveness restated as the bounded (attempts, seconds) above; silent drops (SIGSTOP) are judged on recovery only; 'every phase' is three sampled phases plus, for http and socks5 upstreams, death after every prefix of the upstream's handshake reply (FIN and RST)",
     design_ref="DESIGN.md 3 C19",
     steps=[e2e("c19", timeout=(600, 3000))],
